@@ -201,7 +201,7 @@ func c38(c *an.Check) {
 
 func init() {
 	register(&Def{ID: "C38", Run: c38,
-		Explain:     "Decides on SSA: protocol.ID.Validate succeeds only for non-empty ids for which utf8.ValidString(id) is true and errors only on those two conditions; ParseTptAddr succeeds only when the delimiter was found and both halves are non-empty, returning the two halves of strings.Cut(input); ParsePeerAddressMap records an address only past (delimiter found, address part has a transport delimiter, peer id decodes), keyed by the decoded id's canonical string, appends decode errors to its error list, and writes every list back as slices.Compact of the sort.Strings-ed list; confparse key parsers reject non-base58 text, return keys only from the PEM parser or base58+protobuf decode, and the PEM wrappers return (nil,nil) only for empty input; (PANIC) no undischarged panic site in any top-level function of util/confparse, ParseTptAddr, ParsePeerAddressMap, protocol.ID and the peer-id decode chain (IDB58Decode, IDFromBytes, multihash decoder) they rest on. The totality scope includes the peer-id decode chain. pem.Decode's block and (value, error) results are dereferenced only when known present (keypem included).",
+		Explain:     "Decides on SSA: protocol.ID.Validate succeeds only for non-empty ids for which utf8.ValidString(id) is true and errors only on those two conditions; ParseTptAddr succeeds only when the delimiter was found and both halves are non-empty, returning the two halves of strings.Cut(input); ParsePeerAddressMap records an address only past (delimiter found, address part has a transport delimiter, peer id decodes), keyed by the decoded id's canonical string, appends decode errors to its error list, and writes every list back as slices.Compact of the sort.Strings-ed list; confparse key parsers reject non-base58 text, return keys only from the PEM parser or base58+protobuf decode, and the PEM wrappers return (nil,nil) only for empty input; (PANIC) no undischarged panic site in any top-level function of util/confparse, ParseTptAddr, ParsePeerAddressMap, protocol.ID and the peer-id decode chain (IDB58Decode, IDFromBytes, multihash decoder) they rest on. The totality scope includes the peer-id decode chain. pem.Decode's block and (value, error) results are dereferenced only when known present (keypem included). The ed25519 private-key decoder gates (both accepted layouts keep seed‖public key, 64 bytes) are part of this check.",
 		NotCov:      "format∘parse identities (value-level round trips) and the standard library parsers they delegate to.",
 		Assumptions: commonAssumptions})
 }
